@@ -129,6 +129,16 @@ func (e *Env) seedCorpus(emit func(seedCase)) {
 		emit(seedCase{m: s, p: "pw", class: "code-point-sweep-mnemonic"})
 		emit(seedCase{m: "m", p: s, class: "code-point-sweep-passphrase"})
 	}
+	// code points that string-scanning code tends to treat specially (the replacement character
+	// — which `range` also yields for ill-formed input —, BOM, noncharacters, the ends of the
+	// planes, DEL, C1 controls), next to text that NFKD changes: they are ordinary valid input
+	for _, sp := range []string{"\ufffd", "\ufeff", "\ufffe", "\uffff", "\U0010ffff", "\U0001fffe", "\ud7ff", "\ue000", "\x7f", "\u0080", "\u009f", "\x00", "\u2028", "\ufff9", "\U000e0001"} {
+		for _, dec := range []string{"\u00e9", "\uff41", "\u3000", "\ufb03", "\uac00", "e\u0323\u0301"} {
+			em("abandon "+sp+" ability "+dec, "pw", "special-code-point-next-to-decomposable-text")
+			em("abandon ability", dec+sp, "special-code-point-next-to-decomposable-text")
+			em(dec+sp+dec, sp+dec, "special-code-point-next-to-decomposable-text")
+		}
+	}
 	// white space and invisible characters are part of the input: nothing may be trimmed,
 	// collapsed, case-folded or removed
 	for _, w := range []string{" ", "  ", "\t", "\n", "\r\n", "\u3000", "\u00a0", "\u200b", "\u200d", "\ufeff", "\u00ad", "\u2028", "\x00", "\u034f"} {
